@@ -3,7 +3,7 @@
 cd /verif
 for s in seeded/*/patch.diff mutants/*.diff; do
   case $s in seeded/*) id=$(basename $(dirname $s));; *) id=$(basename $s .diff);; esac
-  p=$(echo $id | sed 's/^c\([0-9][0-9]\).*/C\1/; s/^\(C[0-9][0-9]\).*/\1/')
+  p=$(echo $id | sed 's/^c\([0-9][0-9]\).*/C\1/; s/^x\([0-9][0-9]\).*/X\1/; s/^\(C[0-9][0-9]\).*/\1/')
   line="$id $p"
   for seed in "$@"; do
     n=$(VERIF_SEED=$seed /venv/bin/python -m harness.mutate $s $p 2>/dev/null | grep -o "over [0-9]* rejected" | grep -o "[0-9]*" | head -1)
